@@ -125,4 +125,9 @@ M_R == << MD("m", <<"x", "p">>, {"seq", "par"}, { G("g", <<Par("x"), Par("p")>>)
 T_R == { G("g", <<QI("q", 0), F15>>), G("g", <<QAl("s"), Let("y")>>), G("h", <<QI("r", 1)>>), G("g", <<QI("v", 0), FE6>>),
          G("m", <<QI("q", 2), I2>>), G("k", <<FNEG, INEG, FBIG>>) }
 O_R == { OSeq, OPar, OLoop(Let("a"), FALSE), OLoop(I3, TRUE), OSub(I1), OSub(NumI(5)), OSub(Let("n")) }
+
+\* ---------------------------------------------------------------- C19: alternating seq / par nestings
+H_T == { Hdr(<<DLet("a", I1)>>, <<DReg("q", NumI(5))>>, <<"mypulses.sub">>, <<>>) }
+T_T == { G("g", <<QI("q", 0)>>), G("g", <<QI("q", 1)>>), G("g", <<QI("q", 2)>>), G("h", <<QI("q", 3), Let("a")>>) }
+O_T == { OSeq, OPar, OLoop(I2, FALSE), OSub(I1) }
 =============================================================================
